@@ -47,7 +47,7 @@ Each is a change to non-test `.go` files that
 Make m1 and m2 different in mechanism and site. Be creative: assume the obvious mutations have been tried already (wrong rounding mode at the prominent site, dropping a de-duplication call, swapping two arguments, a cache keyed on too little, an early-return shortcut before validation, clamping an index, state reused across list elements, one element's zooms used instead of per-axis maxima, a running maximum used before it is final, narrowing an integer type, strings.TrimLeft used as TrimPrefix, a guard replaced by a weaker derived test, package-level scratch state, a seen-set hit that leaves or skips a whole loop, float formatting verbs for integer fields, the sign of Go's % remainder, | versus - precedence in bit-fill idioms, a shadowed error variable, a pre-sized list that is not trimmed, a lookup table with an off-by-one end, a validation moved before/after a normalising fallback). Look at interactions between functions, at rarely taken branches, at boundary conditions of loops, at error paths, at type conversions, at operator precedence, at off-by-one in range ends, at aliasing of slices.
 
 ### r1, r2, r3 — behaviour-preserving refactorings
-Each is a realistic, NON-TRIVIAL refactoring (15–70 changed lines) of the functions that implement the property, of the kind a careful maintainer does during clean-up or modernisation, and does NOT change observable behaviour for ANY input. Be bold in restructuring (the more different the code looks, the better) while keeping behaviour identical. Use different styles for the three, for example: extract helpers or move checks between caller and callee; change the data representation of intermediate results (slices vs maps vs structs vs arrays, strings vs parsed numbers, lookup tables instead of loops); restructure control flow (early returns, switch, loop fusion/fission/interchange, recursion vs iteration, closures); replace arithmetic idioms by equivalent ones (shifts vs Pow, Ldexp, floor division idioms, min/max builtins, unsigned-comparison range tests); replace hand-written code by standard-library calls (slices, maps, strings, cmp packages); introduce small value types with methods. The property must hold exactly as before and the existing suite must pass.
+Each is a realistic, NON-TRIVIAL refactoring (20–90 changed lines) of the functions that implement the property (and, where useful, of the helpers and validators they call), of the kind a careful maintainer does during clean-up or modernisation, and does NOT change observable behaviour for ANY input (including invalid input: same errors, same empty/partial results, same panics or absence of panics). Be bold: the more different the code looks, the better. Each of the three must use a DIFFERENT idiom family (combining two in one change is welcome); pick from: (1) closures and iterators (local closures for validation or per-element work, `func(yield)` push iterators, index-based or fused or split loops, labelled break/continue); (2) small value types with methods that carry validation, arithmetic and formatting, results passed as structs; (3) table-driven code (lookup/permutation/offset tables, precomputed power-of-two tables built at package level, dispatch maps of functions); (4) error-handling style (package-level sentinel errors, a local `fail` helper, named results with bare returns, `defer`-based adjustment of results, a single exit with an `err` variable, flags set on the failing edge, switch-true guard chains); (5) standard-library replacements (`slices`, `maps`, `strings.Cut/Count`, `strconv.AppendInt`, `strings.Builder`, `math.Ldexp`, `math/bits`, `cmp`, `min`/`max`, unsigned range tests); (6) generics (one generic helper replacing near-duplicates); (7) moving checks between caller and callee, recursion vs explicit stack; (8) representation of intermediates (parsed integers vs strings, arrays vs named fields, struct-keyed maps, sorted slices + Compact, pre-sized slices filled by index and trimmed; worker goroutines with a WaitGroup that handle every element). Do not touch exported signatures. The property must hold exactly as before and the existing suite must pass.
 
 ### Files to write
 For each k in {{m1, m2, r1, r2, r3}} write into `{d}/out/<k>/`:
